@@ -28,6 +28,8 @@ CLAIMED = {
          "Proves for all values that each narrow bit field written by the Gorilla compressor receives a value that fits (or lists the caller contract it relies on), that every signed payload lies in the asymmetric range the reader decodes, that prefix codes, payload widths and header widths agree between compressor and decompressor, and that the per-query scratch buffer is reset on every path to the next series. Bit-exact round trip as an outcome, TSID hashing and the series-file layout are not decided."),
  "C15": ("§3 C15", "static analysis: loop-carried value analysis on the SSA phi web of HandleBulkBody (LIVE), loop-path analysis of item stores (PAIR), phi-edge analysis of the errors flag per failure branch (DEPENDS), error-flow of the store call, dominance of the size gate, release-site pairing",
          "Shows for every path through the bulk action loop that no status-deciding value is left over from a previous action, that every action stores exactly one response item, that each failure branch turns the errors flag on, that document parsing is behind the record-size gate, that pooled events are released once, and reports that a failed store call only reaches the log. Searchability of acknowledged items is not decided."),
+ "C16": ("§3 C16", "static analysis: dominance/phi-edge analysis of every timestamp store next to a timestamp extraction (fallback discipline), backward value slices of EncodeDatapoint timestamps and GetNewPLE keys (DEPENDS), loop-header phi analysis of the OTLP item loops (LIVE)",
+         "Shows on all paths that a time the event carries is never replaced by a fallback (stores of the extracted time only where non-zero, fallbacks only where the extraction or the current time is zero), that the OTLP log handler takes the event time from the record, that no metrics datapoint timestamp derives from a current-time source, that per-item attributes are not carried from one OTLP resource to the next, and that every protocol handler parses with the configured timestamp key. Attribute completeness and timestamp unit/spelling recognition are not decided."),
 }
 
 NOT_APPLICABLE = {
